@@ -424,6 +424,31 @@ def c16() -> List[M]:
     ]
 
 
+def c13() -> List[M]:
+    return [
+        M("C13", "label-other-register", ET, 'Enum2("grid_mode_label", 35136, GRID_MODES', 'Enum2("grid_mode_label", 35137, GRID_MODES', "C13.R1"),
+        M("C13", "label-other-half", ET, 'EnumL("pv3_mode_label", 35119, PV_MODES', 'EnumH("pv3_mode_label", 35119, PV_MODES', "C13.R1"),
+        M("C13", "enum2-sentinel-differs", S, "        return self._labels.get(read_bytes2(data, None, 0))", "        return self._labels.get(read_bytes2(data))", "C13.R1"),
+        M("C13", "bitmap4-sentinel-dropped", S, "        return decode_bitmap(bits if bits != -1 else 0, self._labels)", "        return decode_bitmap(bits, self._labels)", "C13.R1"),
+        M("C13", "calculated-label-other-register", ET, "                       lambda data: read_grid_mode(data, 35140), GRID_IN_OUT_MODES,", "                       lambda data: read_grid_mode(data, 35138), GRID_IN_OUT_MODES,", "C13.R1"),
+        M("C13", "es-enum-label-offset", ES, 'Enum("battery_mode_label", 30, BATTERY_MODES', 'Enum("battery_mode_label", 29, BATTERY_MODES', "C13.R1"),
+        M("C13", "bitmap22-words-swapped", ET, 'EnumBitmap22("battery_error", 37012, 37006,', 'EnumBitmap22("battery_error", 37006, 37012,', "C13.R2"),
+        M("C13", "benign-bitmap22-parenthesised", S, "read_bytes2(data, self.offset, 0) << 16 + read_bytes2(data, self._offsetL, 0)", "(read_bytes2(data, self.offset, 0) << 16) + read_bytes2(data, self._offsetL, 0)", "clean"),
+        M("C13", "benign-bitmap22-bitor", S, "read_bytes2(data, self.offset, 0) << 16 + read_bytes2(data, self._offsetL, 0)", "read_bytes2(data, self.offset, 0) * 65536 + read_bytes2(data, self._offsetL, 0)", "clean"),
+        M("C13", "bitmap22-shift-8", S, "read_bytes2(data, self.offset, 0) << 16 + read_bytes2(data, self._offsetL, 0)", "(read_bytes2(data, self.offset, 0) << 8) + read_bytes2(data, self._offsetL, 0)", "C13.R2"),
+        M("C13", "decode-bitmap-16-bits", S, "    for i in range(32):\n        if bits & 0x1 == 1:", "    for i in range(16):\n        if bits & 0x1 == 1:", "C13.R2"),
+        M("C13", "decode-bitmap-shift-two", S, "        bits = bits >> 1\n", "        bits = bits >> 2\n", "C13.R2"),
+        M("C13", "house-consumption-battery-unsigned", ET, "                   read_bytes4_signed(data, 35182) -", "                   read_bytes4(data, 35182, 0) -", "C13.R3"),
+        M("C13", "dt-ppv2-wrong-current", DT, '        Calculated("ppv2",\n                   lambda data: round(read_voltage(data, 30105) * read_current(data, 30106)),', '        Calculated("ppv2",\n                   lambda data: round(read_voltage(data, 30105) * read_current(data, 30104)),', "C13.R3"),
+        M("C13", "et-ppv-drops-string4", ET, "                   max(0, read_bytes4(data, 35113, 0)) +\n                   max(0, read_bytes4(data, 35117, 0)),", "                   max(0, read_bytes4(data, 35113, 0)),", "C13.R3"),
+        M("C13", "et-house-consumption-sign", ET, "                   read_bytes4_signed(data, 35182) -\n                   read_bytes2_signed(data, 35140),", "                   read_bytes4_signed(data, 35182) +\n                   read_bytes2_signed(data, 35140),", "C13.R3"),
+        M("C13", "es-plant-power-other-register", ES, "round(read_bytes2(data, 47, 0) + read_bytes2(data, 81, 0))", "round(read_bytes2(data, 47, 0) + read_bytes2(data, 75, 0))", "C13.R3"),
+        M("C13", "es-pgrid1-product-without-round", DT, '        Calculated("pgrid1",\n                   lambda data: round(read_voltage(data, 30118) * read_current(data, 30121)),', '        Calculated("pgrid1",\n                   lambda data: int(read_voltage(data, 30118) * read_current(data, 30121)),', "C13.R3"),
+        M("C13", "dt-ppv-total-misses-ppv3", DT, "                       round(read_voltage(data, 30105) * read_current(data, 30106))) + (\n                                    round(read_voltage(data, 30107) * read_current(data, 30108))),",
+          "                       round(read_voltage(data, 30105) * read_current(data, 30106))),", "C13.R3"),
+    ]
+
+
 def corpus() -> List[M]:
     out: List[M] = []
     for name, fn in sorted(globals().items()):
